@@ -38,6 +38,7 @@ def main():
         obj = json.load(open(args.replay))
         rc = mod.replay(obj)
         sys.exit(rc)
+    os.environ['VERIF_TIER_ACTIVE'] = args.tier
     ctx = common.Ctx(prop, args.tier, args.seed)
     try:
         rc = mod.run(ctx)
